@@ -321,6 +321,7 @@ def run(ctx):
     run_direct(ctx, cuqi, rs, thorough)
     run_routes(ctx, cuqi, rs, thorough)
     run_opt(ctx, cuqi, rs, thorough)
+    run_ml_full(ctx, cuqi, rs, thorough)
 
 
 CORPUS = [
@@ -372,6 +373,12 @@ def run_direct(ctx, cuqi, rs, thorough):
         args = f"{c.gm_model} {c.m} {c.npar} {c.ce_attr} {c.cx_attr} {c.x0_tok} v:{qv(c.b)}"
         lines2.append("map " + args)
         lines2.append("centre " + args)
+        # MAP(disp, x0) with a user-supplied initial guess: the model reads the prior mean from the prior
+        c.x0_variants = [("zeros", np.zeros(c.npar), False), ("ones", np.ones(c.npar), True),
+                         ("random", rs.randint(-3, 4, size=c.npar) / 2.0 + 0.25, False),
+                         ("priormean", (mean if len(mean) == c.npar else np.repeat(mean, c.npar)).astype(float), True)]
+        for (_, ux, disp) in c.x0_variants:
+            lines2.append(f"mapx0 {int(disp)} v:{qv(ux)} {c.gm_model} {c.m} {c.npar} {c.ce_attr} {c.cx_attr} {c.x0_tok} v:{qv(c.b)}")
         x0full = mean if len(mean) == c.npar else np.repeat(mean, c.npar)   # documented: scalar mean = constant vector
         # reference: exact posterior of the documented problem, and the posterior the code's formula sees (stored matrix)
         lines2.append(f"ref {c.aeff[2:]} {sm(c.lik.prec)} {sm(c.prior.prec)} {qv(x0full)} {qv(c.b)}")
@@ -382,8 +389,10 @@ def run_direct(ctx, cuqi, rs, thorough):
     outs2 = ctx.lean.drive(lines2)
     hist = {"map_ok": 0, "map_err": {}, "model_eq_ref": 0, "model_ne_ref": 0, "sample_ok": 0, "sample_err": {}}
     for i, c in enumerate(cases):
-        c.map_model, c.centre_model, c.ref = outs2[4 * i], outs2[4 * i + 1], outs2[4 * i + 2]
-        c.ref_code = outs2[4 * i + 3] if c.want_code_ref else c.ref
+        c.map_model, c.centre_model = outs2[8 * i], outs2[8 * i + 1]
+        c.mapx0_model = outs2[8 * i + 2: 8 * i + 6]
+        c.ref = outs2[8 * i + 6]
+        c.ref_code = outs2[8 * i + 7] if c.want_code_ref else c.ref
         c.pending_draws = []
         direct_case(ctx, cuqi, c, rs, hist)
     pend = [p for c in cases for p in c.pending_draws]
@@ -451,6 +460,38 @@ def direct_case(ctx, cuqi, c, rs, hist):
                 hist["model_ne_ref"] += 1
         # ---- oracle on the implementation
         oracle_point(ctx, key, desc, BP.posterior, x, rmean, rs, info=getattr(impl[2], "info", None))
+    # ---- MAP(disp, x0): a user-supplied initial guess must not change the closed-form estimate
+    for (kind, ux, disp), mout in zip(c.x0_variants, c.mapx0_model):
+        kx = key + ":x0=" + kind
+        dx = {**desc, "x0_arg": ux.tolist(), "disp": disp}
+        ctx.case("lg-x0-" + kind, dx)
+        try:
+            with quiet():
+                xv = BP.MAP(disp=disp, x0=ux.copy())
+            iv = ("ok", np.asarray(xv, dtype=float).ravel())
+        except Exception as e:
+            iv = ("err", exc_name(e))
+        mk2, mv2 = parse_arr(mout)
+        if mk2 == "err" and mv2 == "LinAlgError:singular":
+            mv2 = "LinAlgError"; sing2 = True
+        else:
+            sing2 = False
+        if mout != c.map_model:
+            ctx.disagree(kx, dx, c.map_model[:100], mout[:100], "model: mapMethod depends on x0 (cannot happen: theorem mapMethod_ignores_x0)")
+        if iv[0] == "err":
+            if mk2 != "err" or mv2 != iv[1]:
+                ctx.disagree(kx, dx, mout[:200], "raises " + iv[1], "MAP(x0=...): model value vs implementation exception")
+                if impl[0] == "ok":
+                    ctx.fail(kx, dx, "same behaviour as MAP() (a point)", "raises " + iv[1], "MAP with a user-supplied x0 fails where MAP() returns the estimate")
+            continue
+        hist["map_x0_ok"] = hist.get("map_x0_ok", 0) + 1
+        if not sing2:
+            mvv2 = None if mk2 == "err" else np.atleast_1d(np.asarray(mv2, dtype=float)).ravel()
+            if mk2 == "err" or mvv2.shape != iv[1].shape or not vclose(iv[1], mvv2, TOL):
+                ctx.disagree(kx, dx, mout[:200], iv[1].tolist(), "MAP(x0=...): model vs implementation")
+        if impl[0] == "ok" and not np.array_equal(iv[1], impl[1]):
+            ctx.note(f"MAP(x0={kind}) differs from MAP() at {kx}")
+        oracle_point(ctx, kx, dx, BP.posterior, iv[1], rmean, rs, what="MAP(x0=" + kind + ")")
     # ---- direct sampling with a scripted standard-normal stream
     sample_case(ctx, cuqi, c, BP, desc, rmean, rcov, rs, hist)
 
@@ -603,14 +644,20 @@ def make_model(cuqi, kind, m, n, rs):
     return Model(lambda x: x + c * x ** 3, range_geometry=n, domain_geometry=n, jacobian=lambda x: np.diag(1 + 3 * c * x ** 2)), None
 
 
-def make_problem(cuqi, prior_kind, model_kind, m, n, rs):
+def make_problem(cuqi, prior_kind, model_kind, m, n, rs, noise="full"):
     from cuqi.distribution import Gaussian
     from cuqi.problem import BayesianProblem
     M, A = make_model(cuqi, model_kind, m, n, rs)
     x, pk = make_prior(cuqi, prior_kind, n, rs)
-    sig2 = float(rs.choice([0.25, 0.5, 1.0]))
-    y = Gaussian(M(x), cov=sig2)
     mm = m if model_kind == "linear" else n
+    if noise == "scalar" or mm == 1:
+        sc = float(rs.choice([0.25, 0.5, 1.0])); sig2 = sc * np.eye(mm)
+        y = Gaussian(M(x), cov=sc)
+    else:   # full, non-diagonal SPD noise covariance (so that R^T R and R R^T of its factors differ)
+        Bn = np.tril(rs.randint(-1, 2, size=(mm, mm)).astype(float), -1) / 2.0 + np.eye(mm)
+        Bn[1, 0] = 0.5 if Bn[1, 0] == 0 else Bn[1, 0]
+        sig2 = (Bn @ Bn.T) * float(rs.choice([0.25, 0.5, 1.0]))
+        y = Gaussian(M(x), cov=sig2)
     if prior_kind in ("lognormal", "beta"):
         xt = rs.uniform(0.3, 0.7, size=n)
     else:
@@ -705,9 +752,21 @@ def run_routes(ctx, cuqi, rs, thorough):
                     res[which] = ("direct" if rec is None else rec["solver"], rec, np.asarray(out, dtype=float))
                 except Exception as e:
                     res[which] = ("raises:" + exc_name(e), None, None)
+            # start point: the user's x0 is handed to the solver (optimisation route only)
+            ux = rs.randint(1, 4, size=n) / 4.0
+            for which in ("MAP", "ML"):
+                n0 = len(_Recorder.log)
+                try:
+                    with quiet():
+                        getattr(BP, which)(disp=False, x0=ux.copy())
+                    if len(_Recorder.log) > n0 and not np.array_equal(_Recorder.log[n0]["x0"], ux):
+                        res[which + ":x0"] = _Recorder.log[n0]["x0"].tolist()
+                except Exception:
+                    pass
+            res["ux"] = ux.tolist()
             solver_mod.minimize, solver_mod.L_BFGS_B = saved_solvers
             cuqi.config.MAX_DIM_INV = saved_max
-            recs.append((desc, BP, samp, res, pk))
+            recs.append((desc, BP, samp, res, pk, A, sig2, b))
     finally:
         for nm in sample_methods:
             setattr(BayesianProblem, nm, saved[nm])
@@ -715,7 +774,7 @@ def run_routes(ctx, cuqi, rs, thorough):
         cuqi.config.MAX_DIM_INV = saved_max
     outs = ctx.lean.drive(lines)
     hist = {}
-    for (desc, BP, samp, res, pk), out in zip(recs, outs):
+    for (desc, BP, samp, res, pk, A, sig2, b), out in zip(recs, outs):
         ctx.case("route-" + desc["prior"] + "-" + desc["model"], desc)
         f = dict(t.split("=") for t in out.split(" "))
         key = f"route:{desc['prior']}:{desc['model']}:{'small' if desc['MAX_DIM_INV'] < 10 else 'default'}-maxdim"
@@ -733,6 +792,19 @@ def run_routes(ctx, cuqi, rs, thorough):
                 continue
             if got != mf:
                 ctx.disagree(key + ":" + which, desc, mf, got, "solver / closed-form decision differs")
+                # failing-input search on this very problem: is the point the (unmodelled) route returns a maximiser?
+                cuqi.config.MAX_DIM_INV = desc["MAX_DIM_INV"]
+                try:
+                    with quiet():
+                        xr = getattr(BP, which)(disp=False)
+                    xr = np.asarray(xr, dtype=float).ravel()
+                    dens = BP.posterior if which == "MAP" else BP.likelihood
+                    oracle_point(ctx, key + ":" + which, {**desc, "returned": xr.tolist()}, dens, xr,
+                                 float_ref(BP, which, A, sig2, b, desc["prior"]), rs, tol_point=2e-4, tol_logd=1e-7, grad_tol=1e-5, what=which)
+                except Exception as e:
+                    ctx.note(f"{which} raises {exc_name(e)} on the disagreeing route problem {desc}")
+                finally:
+                    cuqi.config.MAX_DIM_INV = saved_max
                 continue
             rec, out_x = res[which][1], res[which][2]
             if rec is None:
@@ -764,10 +836,78 @@ def run_routes(ctx, cuqi, rs, thorough):
                 bad = ("the solver's point " + str(rec["marker"].tolist()), out_x.tolist(), f"{which} does not return the point the solver returned")
             if not np.array_equal(rec["x0"], np.ones(len(rec["x0"]))):
                 ctx.note(f"start point is not the ones vector at {kk}")
+            if which + ":x0" in res:
+                ctx.note(f"user x0 {res['ux']} reached the solver as {res[which + ':x0']} at {kk}")
             if bad:
                 ctx.disagree(kk, desc, bad[0], bad[1], bad[2])
                 ctx.fail(kk, desc, bad[0], bad[1], bad[2])
     ctx.extra_cov["route_histogram"] = hist
+
+
+def float_ref(BP, which, A, sig2, b, prior_kind):
+    """numpy reference of the maximiser where a closed form exists (linear model), else None"""
+    if A is None:
+        return None
+    We = np.linalg.inv(sig2)
+    if which == "ML":
+        if np.linalg.matrix_rank(A) == A.shape[1]:
+            return np.linalg.solve(A.T @ We @ A, A.T @ We @ b)
+        return None
+    if prior_kind in ("gaussian", "gaussian-prec", "gmrf"):
+        R = dense(BP.prior.sqrtprec); Wx = R.T @ R
+        mu = np.asarray(BP.prior.mean, dtype=float).ravel()
+        mu = mu if len(mu) == A.shape[1] else np.repeat(mu, A.shape[1])
+        return np.linalg.solve(A.T @ We @ A + Wx, A.T @ We @ b + Wx @ mu)
+    return None
+
+
+# ----------------------------------------------------------------------------------------------- ML with full noise specifications
+def run_ml_full(ctx, cuqi, rs, thorough):
+    """over-determined full-column-rank linear models, noise given by a FULL non-diagonal cov / prec / sqrtcov (symmetric)
+    / sqrtprec (non-symmetric) matrix: ML must be the exact weighted least-squares solution (theorem ml_full_column_rank)"""
+    from cuqi.distribution import Gaussian
+    from cuqi.model import LinearModel
+    from cuqi.problem import BayesianProblem
+    nprob = 240 if thorough else 32
+    probs, lines = [], []
+    params = ["cov", "prec", "sqrtcov", "sqrtprec"]
+    for k in range(nprob):
+        n = int(rs.randint(1, 5)); m = n + int(rs.randint(1, 4))
+        A = rs.randint(-2, 3, size=(m, n)).astype(float)
+        for i in range(n):
+            A[i, i] += 3.0
+        for _ in range(20):
+            spec = gen_spec(rs, m, params[k % 4], "matrix")
+            V = np.array(spec.value)
+            if np.abs(V - np.diag(np.diag(V))).max() > 0:
+                break
+        b = rs.randint(-4, 5, size=m).astype(float)
+        probs.append((A, spec, b, n, m))
+        lines.append(f"ref {qm(A)} {sm(spec.prec)} {sm([[Fraction(0)] * n for _ in range(n)])} {qv(np.zeros(n))} {qv(b)}")
+    outs = ctx.lean.drive(lines)
+    for (A, spec, b, n, m), out in zip(probs, outs):
+        desc = {"A": A.tolist(), "noise": [spec.param, "matrix", spec.value], "b": b.tolist(), "m": m, "n": n}
+        if not out.startswith("mean="):
+            ctx.note(f"ml-full: no exact reference ({out}) for {desc}")
+            continue
+        ref = np.array([float(v) for v in pv(out.split(" ")[0][5:])])
+        with quiet():
+            x = Gaussian(np.zeros(n), cov=1.0)
+            y = Gaussian(LinearModel(A)(x), **spec.kwargs())
+            BP = BayesianProblem(y, x).set_data(y=b)
+        for xk, ux in (("none", None), ("zeros", np.zeros(n)), ("random", rs.randint(-3, 4, size=n) / 2.0)):
+            key = f"ML:full-noise:{spec.label}" + ("" if xk == "none" else ":x0=" + xk)
+            dx = {**desc, "x0_arg": None if ux is None else ux.tolist()}
+            ctx.case("ml-full-" + spec.param, dx)
+            try:
+                with quiet():
+                    xm = BP.ML(disp=False) if ux is None else BP.ML(disp=False, x0=ux.copy())
+                xv = np.asarray(xm, dtype=float).ravel()
+            except Exception as e:
+                ctx.note(f"{key} raises {exc_name(e)}: {str(e)[:60]}")
+                continue
+            oracle_point(ctx, key, {**dx, "returned": xv.tolist()}, BP.likelihood, xv, ref, rs,
+                         tol_point=2e-4, tol_logd=1e-7, grad_tol=1e-5, what="ML")
 
 
 # ----------------------------------------------------------------------------------------------- optimisation route: oracle only
@@ -802,14 +942,17 @@ def run_opt(ctx, cuqi, rs, thorough):
             except Exception as e:
                 ctx.note(f"{key} raises {exc_name(e)}: {str(e)[:60]}")   # a failing call is allowed by the property
                 continue
-            ref = None
-            if A is not None and kind in ("gmrf", "gaussian-ml"):
-                We = np.eye(A.shape[0]) / sig2
-                if which == "ML":
-                    if np.linalg.matrix_rank(A) == A.shape[1]:
-                        ref = np.linalg.solve(A.T @ We @ A, A.T @ We @ b)
-                else:
-                    R = dense(BP.prior.sqrtprec); Wx = R.T @ R
-                    ref = np.linalg.solve(A.T @ We @ A + Wx, A.T @ We @ b + Wx @ np.asarray(BP.prior.mean, dtype=float))
+            ref = float_ref(BP, which, A, sig2, b, kind) if kind in ("gmrf", "gaussian-ml") else None
+            if k % 2 == 1:   # user-supplied start point: the result must still be a maximiser
+                ux = rs.randint(-2, 3, size=len(x)) / 2.0 if kind not in ("lognormal",) else rs.uniform(0.3, 0.9, size=len(x))
+                try:
+                    with quiet():
+                        xm = getattr(BP, which)(disp=False, x0=ux.copy())
+                    x = np.asarray(xm, dtype=float).ravel()
+                    key = key + ":x0"
+                    desc = {**desc, "x0_arg": ux.tolist()}
+                except Exception as e:
+                    ctx.note(f"{key}:x0 raises {exc_name(e)}")
+                    continue
             oracle_point(ctx, key, {**desc, "returned": x.tolist(), "info": str(getattr(xm, "info", {}).get("success"))},
                          dens, x, ref, rs, tol_point=2e-4, tol_logd=1e-7, grad_tol=1e-5, what=which)
